@@ -6,7 +6,9 @@
         | {"ok":false, "err": msg} *)
 From Coq Require Import List ZArith String Bool Arith.
 Import ListNotations.
-Require Import Naga.Base.Json Naga.IR.Syntax Naga.IR.Decode Naga.Passes.Remap Naga.Passes.Compact Naga.Passes.Show.
+Require Import Naga.Base.Json Naga.IR.Syntax Naga.IR.Decode Naga.IR.Values Naga.IR.Sem.
+Require Import Naga.Passes.Remap Naga.Passes.Compact Naga.Passes.Show Naga.Passes.Lenient.
+Require Import Naga.Passes.RenameSound Naga.Passes.CompactExprProofs Naga.Passes.CompactExprIdem Naga.Passes.CompactUnusedProofs.
 Require Extraction.
 Require Import ExtrOcamlBasic.
 Open Scope string_scope.
@@ -24,15 +26,57 @@ Definition apply_pass (p : string) (tuo : list nat) (m : module) : option (modul
   else if String.eqb p "unused_pipeline" then Some (unused_pipeline (m, tuo))
   else None.
 
+(* hypotheses of the theorems of Props/C13.v, evaluated on the module at hand *)
+Definition hyp_report (m : module) : json :=
+  JObj [("module_wf", JBool (module_wfb m));
+        ("module_known", JBool (module_known m));
+        ("calls_closed", JBool (calls_closedb m (used_functions m)));
+        ("no_global_removed", JBool (all_true (used_globals m (used_functions m))));
+        ("lazy_funcs", jn (count_lazy m))].
+
+Definition opt_value (j : json) : option (option value) :=
+  match j with
+  | JNull => Some None
+  | _ => match value_of_json 64 j with Some v => Some (Some v) | None => None end
+  end.
+
+Definition rerr (kind msg : string) : json := JObj [("ok", JBool false); ("kind", JStr kind); ("msg", JStr msg)].
+
+(* {"pass":"run", "ir":dump, "ep":i, "globals":[..], "args":[..], "fuel":n, "lenient":bool}: as tool irrun,
+   optionally on [lenient m] *)
+Definition run_entry_json (j irj : json) : json :=
+  match field_num "ep" j, field_arr "globals" j, field_arr "args" j, field_num "fuel" j with
+  | Some ep, Some gs, Some args, Some fuel =>
+    match dec_module irj with
+    | Err msg => rerr "decode" msg
+    | Ok m0 =>
+      let m := match field_bool "lenient" j with Some true => lenient m0 | _ => m0 end in
+      match map_opt opt_value gs, map_opt (value_of_json 64) args with
+      | Some gvals, Some avals =>
+        match run_entry (Z.to_nat fuel) m (Z.to_nat ep) gvals avals with
+        | Done (gs', ret) =>
+          JObj [("ok", JBool true); ("globals", JArr (map json_of_value gs'));
+                ("ret", match ret with Some v => json_of_value v | None => JNull end)]
+        | OutOfFuel => rerr "outoffuel" ""
+        | Fail msg => rerr "fail" msg
+        end
+      | _, _ => rerr "decode" "bad value encoding in globals/args"
+      end
+    end
+  | _, _, _, _ => rerr "decode" "missing ep/globals/args/fuel"
+  end.
+
 Definition entry (j : json) : json :=
   match field_str "pass" j, field "ir" j with
   | Some p, Some irj =>
+    if String.eqb p "run" then run_entry_json j irj else
     match dec_module irj with
     | Err msg => JObj [("ok", JBool false); ("err", JStr msg)]
     | Ok m =>
       let tuo := match field "TypeUseOrder" irj with
                  | Some (JArr l) => flat_map (fun x => match x with JNum z => [Z.to_nat z] | _ => [] end) l
                  | _ => [] end in
+      if String.eqb p "hyp" then JObj [("ok", JBool true); ("hyp", hyp_report m)] else
       match apply_pass p tuo m with
       | Some (m', tuo') => JObj [("ok", JBool true); ("show", show_module m'); ("type_use_order", JArr (map jn tuo'))]
       | None => JObj [("ok", JBool false); ("err", JStr ("unknown pass " ++ p))]
